@@ -24,6 +24,7 @@ import (
 	"encoding/asn1"
 	"encoding/base64"
 	"encoding/binary"
+	"encoding/hex"
 	"encoding/pem"
 	"fmt"
 	"math/big"
@@ -33,6 +34,9 @@ import (
 	"path/filepath"
 	"strings"
 	"time"
+
+	"golang.org/x/crypto/cryptobyte"
+	cbasn1 "golang.org/x/crypto/cryptobyte/asn1"
 
 	"github.com/edutko/decipher/internal/file"
 	"github.com/edutko/decipher/internal/names"
@@ -146,6 +150,18 @@ type encCert struct {
 	sigOID          []int  // otherwise
 	extraExt        int    // number of unrelated non-critical extensions mixed in
 	caFalseExplicit bool   // encode cA BOOLEAN FALSE explicitly (BER-ish, accepted by Go)
+
+	// DER-level overrides (the octet stream of op der): when set, the field is written as given
+	ovVersion  []byte   // the whole [0] element (or any octets in its place)
+	ovSerial   []byte   // the whole INTEGER element
+	ovValidity []byte   // the whole Validity SEQUENCE
+	ovUIDs     []byte   // octets between subjectPublicKeyInfo and the extensions ([1] / [2] unique identifiers)
+	ovExts     [][]byte // the Extension elements inside [3] { SEQUENCE { ... } }
+	ovExtsSet  bool
+	ovExtBlock []byte   // the whole [3] element, written as given
+	ovOuterSig []byte   // the outer AlgorithmIdentifier element
+	ovTrailer  []byte   // octets after the certificate
+	sanValues  [][]byte // subjectAltName values written through ovExts (for the URI oracle)
 }
 
 var (
@@ -248,14 +264,8 @@ func (t *encCert) extensions(r *Rng) [][]byte {
 		exts = append(exts, derExt(oidAKI, false, c03_derSeq(tlv(0xa1, tlv(0x82, []byte("ca.example"))), tlv(0x82, []byte{5}))))
 	}
 	for i := 0; i < t.extraExt; i++ {
-		switch i % 3 {
-		case 0: // a private extension
-			exts = append(exts, derExt([]int{1, 3, 6, 1, 4, 1, 99999, 1, i}, false, tlv(0x0c, []byte("note"))))
-		case 1: // CRL distribution point
-			exts = append(exts, derExt([]int{2, 5, 29, 31}, false, c03_derSeq(c03_derSeq(tlv(0xa0, tlv(0xa0, tlv(0x86, []byte("http://crl.example/c.crl"))))))))
-		default: // certificate policies: anyPolicy
-			exts = append(exts, derExt([]int{2, 5, 29, 32}, false, c03_derSeq(c03_derSeq(c03_derOID([]int{2, 5, 29, 32, 0})))))
-		}
+		o, v := extraExtParts(i)
+		exts = append(exts, derExt(o, false, v))
 	}
 	// extension order is not significant: shuffle
 	for i := len(exts) - 1; i > 0; i-- {
@@ -269,18 +279,34 @@ func (t *encCert) extensions(r *Rng) [][]byte {
 // parsing does not verify them).
 func (t *encCert) rawDER(r *Rng) []byte {
 	var tbs [][]byte
-	if t.version != 1 {
+	if t.ovVersion != nil {
+		tbs = append(tbs, t.ovVersion)
+	} else if t.version != 1 {
 		tbs = append(tbs, tlv(0xa0, c03_derInt(big.NewInt(int64(t.version-1)))))
 	}
-	tbs = append(tbs, c03_derInt(t.serial), t.sigAlgDER(), t.issuer,
-		c03_derSeq(derTime(t.nb), derTime(t.na)), t.subject, t.spki.der)
-	if t.version == 3 {
+	serial, validity := c03_derInt(t.serial), c03_derSeq(derTime(t.nb), derTime(t.na))
+	if t.ovSerial != nil {
+		serial = t.ovSerial
+	}
+	if t.ovValidity != nil {
+		validity = t.ovValidity
+	}
+	tbs = append(tbs, serial, t.sigAlgDER(), t.issuer, validity, t.subject, t.spki.der, t.ovUIDs)
+	if t.ovExtBlock != nil {
+		tbs = append(tbs, t.ovExtBlock)
+	} else if t.ovExtsSet {
+		tbs = append(tbs, tlv(0xa3, c03_derSeq(t.ovExts...)))
+	} else if t.version == 3 {
 		exts := t.extensions(r)
 		if len(exts) > 0 || r.Intn(4) == 0 {
 			tbs = append(tbs, tlv(0xa3, c03_derSeq(exts...)))
 		}
 	}
-	return c03_derSeq(c03_derSeq(tbs...), t.sigAlgDER(), derBitsOf(r.Bytes(16+r.Intn(48))))
+	outer := t.sigAlgDER()
+	if t.ovOuterSig != nil {
+		outer = t.ovOuterSig
+	}
+	return append(c03_derSeq(c03_derSeq(tbs...), outer, derBitsOf(r.Bytes(16+r.Intn(48)))), t.ovTrailer...)
 }
 
 // ---------------------------------------------------------------- CreateCertificate path
@@ -878,6 +904,10 @@ func randURI(r *Rng) string {
 }
 
 func randEmail(r *Rng) string {
+	if r.Intn(6) == 0 {
+		// RFC 2821 4.1.2: the local part may be a quoted string (quoted pairs \" and \\ inside)
+		return "\"" + randText(r, []string{"a", ", ", ",", " ", "\\\\", "\\\"", "x", "."}, 0, 6) + "\"@" + randDNS(r)
+	}
 	return randText(r, []string{"a", "b", "x", ".", "+", "_", "9"}, 1, 8) + "@" + randDNS(r)
 }
 
@@ -1121,11 +1151,13 @@ func jksOf(aliases []string, millis []int64, ders [][]byte, r *Rng) []byte {
 }
 
 type c03 struct {
-	c   *Ctx
-	dir string
-	sg  *signers
-	kp  *keyPool
-	seq int
+	c         *Ctx
+	dir       string
+	sg        *signers
+	kp        *keyPool
+	seq       int
+	orng      *Rng // randomness of the certificates built to ask the library as an oracle
+	negSerial Sx
 }
 
 func (g *c03) inspect(name string, data []byte) Sx {
@@ -1217,6 +1249,7 @@ func genC03(c *Ctx) {
 	defer os.RemoveAll(g.dir)
 	g.sg = newSigners(NewRng(c.Seed ^ 0x5eed))
 	g.kp = newKeyPool(NewRng(c.Seed ^ 0x6b65))
+	g.orng = NewRng(c.Seed ^ 0x0a1e)
 	base := func() *encCert {
 		return &encCert{version: 3, serial: big.NewInt(77), subject: fixedName("leaf.example"), issuer: fixedName("Example CA"),
 			nb: time.Date(2024, 1, 1, 0, 0, 0, 0, time.UTC), na: time.Date(2025, 1, 1, 0, 0, 0, 0, time.UTC),
@@ -1414,6 +1447,7 @@ func genC03(c *Ctx) {
 		if _, err := x509.ParseCertificate(der); err != nil {
 			continue
 		}
+		g.emitDer(tag, t, der, true, i%4 == 0)
 		// a presentation: alone or together with one or two further certificates
 		ts, ders := []*encCert{t}, [][]byte{der}
 		for k := r.Intn(3); k > 0; k-- {
@@ -1425,6 +1459,9 @@ func genC03(c *Ctx) {
 		}
 		g.emitPresentations(tag, ts, ders)
 	}
+
+	// ---- DER level: non-canonical and malformed encodings of every modelled part ----
+	g.genDerStream()
 
 	// ---- malformed stream: mutations of valid encodings; the library's verdict is recorded ----
 	nm := 600
@@ -1486,4 +1523,648 @@ func usagesSx(m int) Sx {
 		out = append(out, S(s))
 	}
 	return out
+}
+
+// ---------------------------------------------------------------- DER stream (ops der / derinspect)
+//
+// op der         input (certificate octets, oracle answers for the parts that are not modelled
+//                octet by octet), observation crypto/x509.ParseCertificate's fields or refusal;
+//                the model decodes the OCTETS (Model/CertDer.v).
+// op derinspect  the same octets through file.Inspect; the model is describe(decode(octets)); when
+//                the harness knows what it encoded (third component) the spec checker judges the
+//                report against that content.
+
+func derContentOf(elem []byte) []byte {
+	s := cryptobyte.String(elem)
+	var out cryptobyte.String
+	var tag cbasn1.Tag
+	if !s.ReadAnyASN1(&out, &tag) {
+		return nil
+	}
+	return out
+}
+
+const (
+	critAbsent = iota
+	critTrue
+	critFalse // DEFAULT FALSE written explicitly
+	critBad   // BOOLEAN with content 0x01
+)
+
+func derExtC(oid []int, crit int, value []byte) []byte {
+	switch crit {
+	case critTrue:
+		return c03_derSeq(c03_derOID(oid), []byte{1, 1, 0xff}, tlv(0x04, value))
+	case critFalse:
+		return c03_derSeq(c03_derOID(oid), []byte{1, 1, 0}, tlv(0x04, value))
+	case critBad:
+		return c03_derSeq(c03_derOID(oid), []byte{1, 1, 1}, tlv(0x04, value))
+	}
+	return c03_derSeq(c03_derOID(oid), tlv(0x04, value))
+}
+
+func extraExtParts(i int) ([]int, []byte) {
+	switch i % 3 {
+	case 0:
+		return []int{1, 3, 6, 1, 4, 1, 99999, 1, i}, tlv(0x0c, []byte("note"))
+	case 1:
+		return []int{2, 5, 29, 31}, c03_derSeq(c03_derSeq(tlv(0xa0, tlv(0xa0, tlv(0x86, []byte("http://crl.example/c.crl"))))))
+	}
+	return []int{2, 5, 29, 32}, c03_derSeq(c03_derSeq(c03_derOID([]int{2, 5, 29, 32, 0})))
+}
+
+// bitsOfContent: the bits of a BIT STRING content (unused-bits octet, data), bit 0 first
+func bitsOfContent(unused int, data []byte) []bool {
+	bits := []bool{}
+	for i := 0; i < 8*len(data)-unused; i++ {
+		bits = append(bits, data[i/8]&(0x80>>uint(i%8)) != 0)
+	}
+	return bits
+}
+
+func (g *c03) baseCert() *encCert {
+	return &encCert{version: 3, serial: big.NewInt(77), subject: fixedName("leaf.example"), issuer: fixedName("Example CA"),
+		nb: time.Date(2024, 1, 1, 0, 0, 0, 0, time.UTC), na: time.Date(2025, 1, 1, 0, 0, 0, 0, time.UTC),
+		spki: g.kp.ed, sigKnown: int(x509.PureEd25519)}
+}
+
+// uriOracle: what crypto/x509 makes of one uniformResourceIdentifier name (asked in a certificate
+// that carries nothing else): (text) refused, (text string) accepted with URL.String()
+func (g *c03) uriOracle(data []byte) Sx {
+	t := g.baseCert()
+	t.hasSAN, t.sans = true, []encSAN{{6, data}}
+	pc, err := x509.ParseCertificate(t.rawDER(g.orng))
+	if err != nil || len(pc.URIs) != 1 {
+		return SL{SB(data)}
+	}
+	return SL{SB(data), S(pc.URIs[0].String())}
+}
+
+// extOracle: does crypto/x509 accept this value of an extension it parses but the tool never reads
+func (g *c03) extOracle(oid []int, crit int, value []byte) Sx {
+	t := g.baseCert()
+	t.ovExtsSet, t.ovExts = true, [][]byte{derExtC(oid, crit, value)}
+	_, err := x509.ParseCertificate(t.rawDER(g.orng))
+	return SL{oidSx(oid), Bool(crit == critTrue), SB(value), Bool(err == nil)}
+}
+
+// sigAIContent: content octets of the outer AlgorithmIdentifier of a certificate
+func sigAIContent(raw []byte) []byte {
+	var outer []asn1.RawValue
+	if _, err := asn1.Unmarshal(raw, &outer); err != nil || len(outer) != 3 {
+		return nil
+	}
+	return outer[1].Bytes
+}
+
+// oraclesSx: the library's answers for the opaque parts (names, subject key, signature algorithm,
+// URIs, extensions the tool never reads). pc is the parsed certificate when the library accepted
+// the octets; otherwise the answers are asked on the encoding of t without any DER-level override
+// (which the library must accept; the opaque parts are the same octets).
+func (g *c03) oraclesSx(t *encCert, pc *x509.Certificate) (Sx, bool) {
+	if pc == nil {
+		clean := *t
+		clean.ovVersion, clean.ovSerial, clean.ovValidity, clean.ovUIDs, clean.ovExts, clean.ovExtsSet = nil, nil, nil, nil, nil, false
+		clean.ovExtBlock, clean.ovOuterSig, clean.ovTrailer = nil, nil, nil
+		var err error
+		if pc, err = x509.ParseCertificate(clean.rawDER(g.orng)); err != nil {
+			return nil, false
+		}
+	}
+	nm := SL{SL{SB(derContentOf(pc.RawIssuer)), S(names.FromRawDN(pc.RawIssuer))}, SL{SB(derContentOf(pc.RawSubject)), S(names.FromRawDN(pc.RawSubject))}}
+	pk := SL{SL{SB(derContentOf(pc.RawSubjectPublicKeyInfo)), spkiOfRaw(pc.RawSubjectPublicKeyInfo)}}
+	sg := SL{SL{SB(sigAIContent(pc.Raw)), I(int(pc.SignatureAlgorithm)), sigOIDSx(pc)}}
+	uris := SL{}
+	for _, s := range t.sans {
+		if s.tag == 6 {
+			uris = append(uris, g.uriOracle(s.data))
+		}
+	}
+	for _, v := range t.sanValues {
+		s := cryptobyte.String(v)
+		var seq cryptobyte.String
+		if !s.ReadASN1(&seq, cbasn1.SEQUENCE) {
+			continue
+		}
+		for !seq.Empty() {
+			var it cryptobyte.String
+			var tag cbasn1.Tag
+			if !seq.ReadAnyASN1(&it, &tag) {
+				break
+			}
+			if tag == 0x86 {
+				uris = append(uris, g.uriOracle(it))
+			}
+		}
+	}
+	exts := SL{}
+	for i := 0; i < t.extraExt; i++ {
+		if o, v := extraExtParts(i); len(o) == 4 {
+			exts = append(exts, g.extOracle(o, critAbsent, v))
+		}
+	}
+	if g.negSerial == nil {
+		// GODEBUG x509negativeserial as in effect (its default follows the go line of the main module's go.mod)
+		n := g.baseCert()
+		n.ovSerial = tlv(0x02, []byte{0x80})
+		_, err := x509.ParseCertificate(n.rawDER(g.orng))
+		g.negSerial = Bool(err == nil)
+	}
+	return SL{nm, pk, sg, uris, exts, g.negSerial}, true
+}
+
+// emitDer: the octets under the library (op der) and, when accepted, under the tool (op derinspect).
+// known: t.sx() says what der encodes and the content is within RFC 5280's profile.
+func (g *c03) emitDer(tag string, t *encCert, der []byte, known, inspect bool) {
+	c := g.c
+	pc, err := x509.ParseCertificate(der)
+	orc, ok := g.oraclesSx(t, pc)
+	if !ok {
+		return
+	}
+	if err != nil {
+		c.Emit("der:"+tag+"-refused", SL{SB(der), orc}, ObsErr())
+		return
+	}
+	c.Emit("der:"+tag, SL{SB(der), orc}, ObsOk(fieldsSx(pc)))
+	if !inspect {
+		return
+	}
+	var enc Sx = SL{}
+	if known {
+		enc = SL{t.sx()}
+	}
+	c.Emit("derinspect:"+tag, SL{SB(der), orc, enc}, g.inspect("c.cer", der))
+}
+
+func mutateBytes(r *Rng, b []byte) []byte {
+	b = append([]byte{}, b...)
+	if len(b) == 0 {
+		return []byte{byte(r.Intn(256))}
+	}
+	switch r.Intn(5) {
+	case 0:
+		b[r.Intn(len(b))] ^= byte(1 << uint(r.Intn(8)))
+	case 1:
+		b = b[:r.Intn(len(b))]
+	case 2:
+		p := r.Intn(len(b) + 1)
+		b = append(append(append([]byte{}, b[:p]...), r.Bytes(1+r.Intn(3))...), b[p:]...)
+	case 3:
+		b[r.Intn(len(b))] = []byte{0, 0xff, 0x80, 0x7f, 0x30, 0x02, 0x81, 0x86, 0x87, 0x01, 0x05}[r.Intn(11)]
+	default:
+		p := r.Intn(len(b))
+		b = append(b[:p], b[p+1:]...)
+	}
+	return b
+}
+
+const coqEncodedExample = "308201bd3082016fa003020102020300c801300506032b65703015311330110603550403130a4578616d706c652043413020170d3439313233313233353935395a180f32303530303130313030303030305a3017311530130603550403130c6c6561662e6578616d706c65302a300506032b65700321000707070707070707070707070707070707070707070707070707070707070707a381dd3081da305c0603551d11045530538704c00002018209612e6578616d706c65a00606012aa00105810b7840612e6578616d706c65861968747470733a2f2f612e6578616d706c652f703f713d312366871020010db8000000000001000000000001300e0603551d0f0101ff040403020186301306092b06010401868d1f0104060c046e6f746530120603551d130101ff040830060101ff02010030200603551d250101000416301406032a030406082b060105050703010603883701300d0603551d0e0406040403de503530100603551d230409300780020abc820105300506032b6570034100aaaaaaaaaaaaaaaaaaaaaaaaaaaaaaaaaaaaaaaaaaaaaaaaaaaaaaaaaaaaaaaaaaaaaaaaaaaaaaaaaaaaaaaaaaaaaaaaaaaaaaaaaaaaaaaaaaaaaaaaaaaaaaaa"
+
+func utcT(s string) []byte { return tlv(0x17, []byte(s)) }
+func genT(s string) []byte { return tlv(0x18, []byte(s)) }
+
+func (g *c03) genDerStream() {
+	r := g.c.R
+	type variant struct {
+		tag     string
+		known   bool // the abstract content set by f is what the octets encode, within profile
+		inspect bool
+		f       func(t *encCert)
+	}
+	var vs []variant
+	add := func(tag string, known bool, f func(t *encCert)) { vs = append(vs, variant{tag, known, true, f}) }
+	// an extension written as given; the abstract content is set by abs (nil: unknown / refused)
+	ext := func(tag string, oid []int, crit int, value []byte, known bool, abs func(t *encCert)) {
+		add(tag, known, func(t *encCert) {
+			t.ovExtsSet, t.ovExts = true, [][]byte{derExtC(oid, crit, value)}
+			if oidEq(oid, oidSAN) {
+				t.sanValues = [][]byte{value}
+			}
+			if abs != nil {
+				abs(t)
+			}
+		})
+	}
+	bTrue, bFalse, bOne := []byte{1, 1, 0xff}, []byte{1, 1, 0}, []byte{1, 1, 1}
+	bi := func(n int64) []byte { return c03_derInt(big.NewInt(n)) }
+
+	// ---- keyUsage (RFC 5280 4.2.1.3): BIT STRING, unused-bits octet, trailing zero bits ----
+	ku := func(tag string, unused int, data []byte, ok bool) {
+		v := tlv(0x03, append([]byte{byte(unused)}, data...))
+		ext("ku-"+tag, oidKU, critTrue, v, ok, func(t *encCert) {
+			if ok {
+				t.ku = bitsOfContent(unused, data)
+			}
+		})
+	}
+	ku("1bit", 7, []byte{0x80}, true)
+	ku("9bits", 7, []byte{0x01, 0x80}, true)
+	ku("16bits", 0, []byte{0x80, 0x80}, true)
+	ku("24bits", 0, []byte{0xff, 0xff, 0xff}, true)
+	ku("40bits", 3, []byte{0x06, 0x00, 0x00, 0x00, 0x08}, true)
+	ku("trailing-zero-octet", 0, []byte{0x05, 0x00}, true)
+	ku("trailing-zero-bits", 0, []byte{0x80}, true)
+	ku("all-zero", 0, []byte{0x00, 0x00}, true)
+	ku("empty", 0, []byte{}, true)
+	ku("unused8", 8, []byte{0x80}, false)
+	ku("unused255", 255, []byte{0x80}, false)
+	ku("padding-set", 3, []byte{0x0f}, false)
+	ku("padding-set2", 7, []byte{0x01, 0xc0}, false)
+	ku("unused-without-data", 1, []byte{}, false)
+	ext("ku-no-content", oidKU, critTrue, tlv(0x03), false, nil)
+	ext("ku-octet-string", oidKU, critTrue, tlv(0x04, []byte{0, 0x80}), false, nil)
+	ext("ku-long-length", oidKU, critTrue, []byte{0x03, 0x81, 0x02, 0x07, 0x80}, false, nil)
+	ext("ku-long-tag", oidKU, critTrue, []byte{0x1f, 0x03, 0x02, 0x07, 0x80}, false, nil)
+	ext("ku-trailing-data", oidKU, critTrue, append(tlv(0x03, []byte{7, 0x80}), 5, 0), true, func(t *encCert) { t.ku = []bool{true} })
+	ext("ku-noncritical", oidKU, critAbsent, tlv(0x03, []byte{5, 0xa0}), true, func(t *encCert) { t.ku = []bool{true, false, true} })
+	ext("ku-critical-false-explicit", oidKU, critFalse, tlv(0x03, []byte{5, 0xa0}), true, func(t *encCert) { t.ku = []bool{true, false, true} })
+	ext("ku-critical-01", oidKU, critBad, tlv(0x03, []byte{5, 0xa0}), false, nil)
+
+	// ---- basicConstraints (4.2.1.9): SEQUENCE { cA BOOLEAN DEFAULT FALSE, pathLen INTEGER OPTIONAL } ----
+	bc := func(tag string, known bool, abs func(t *encCert), parts ...[]byte) {
+		ext("bc-"+tag, oidBC, critTrue, c03_derSeq(parts...), known, abs)
+	}
+	setBC := func(ca, has bool, n int64) func(t *encCert) {
+		return func(t *encCert) { t.hasBasic, t.isCA, t.hasPathLen, t.pathLen = true, ca, has, n }
+	}
+	bc("empty", true, setBC(false, false, 0))
+	bc("false-explicit", true, setBC(false, false, 0), bFalse)
+	bc("true", true, setBC(true, false, 0), bTrue)
+	for _, n := range []int64{0, 1, 127, 128, 255, 256, 1<<31 - 1, 1 << 31, 1<<62 - 1} {
+		bc("true-pathlen", true, setBC(true, true, n), bTrue, bi(n))
+	}
+	bc("true-pathlen-trailing", true, setBC(true, true, 3), bTrue, bi(3), []byte{5, 0})
+	bc("true-01", false, nil, bOne)
+	bc("true-7f", false, nil, []byte{1, 1, 0x7f})
+	bc("bool-2-octets", false, nil, []byte{1, 2, 0xff, 0xff})
+	bc("bool-empty", false, nil, []byte{1, 0})
+	bc("pathlen-nonminimal", false, nil, bTrue, []byte{2, 2, 0, 5})
+	bc("pathlen-nonminimal-neg", false, nil, bTrue, []byte{2, 2, 0xff, 0x85})
+	bc("pathlen-9-octets", false, nil, bTrue, []byte{2, 9, 0, 0x80, 0, 0, 0, 0, 0, 0, 0})
+	bc("pathlen-empty", false, nil, bTrue, []byte{2, 0})
+	// outside the profile of RFC 5280 (pathLen without cA, negative): accepted by the library
+	bc("pathlen-without-ca", false, setBC(false, true, 2), bi(2))
+	bc("false-pathlen", false, setBC(false, true, 0), bFalse, bi(0))
+	bc("pathlen-before-ca", false, setBC(false, true, 4), bi(4), bTrue)
+	bc("pathlen-negative", false, setBC(true, true, -1), bTrue, bi(-1))
+	bc("pathlen-negative2", false, setBC(true, true, -200), bTrue, bi(-200))
+	ext("bc-not-a-sequence", oidBC, critTrue, bTrue, false, nil)
+	ext("bc-set", oidBC, critTrue, tlv(0x31, bTrue), false, nil)
+	ext("bc-trailing-data", oidBC, critTrue, append(c03_derSeq(bTrue), 0xde, 0xad), true, setBC(true, false, 0))
+	ext("bc-noncritical", oidBC, critAbsent, c03_derSeq(bTrue, bi(0)), true, setBC(true, true, 0))
+
+	// ---- extKeyUsage (4.2.1.12): SEQUENCE OF OBJECT IDENTIFIER ----
+	eku := func(tag string, known bool, oids [][]int, raw ...[]byte) {
+		var parts [][]byte
+		for _, o := range oids {
+			parts = append(parts, c03_derOID(o))
+		}
+		parts = append(parts, raw...)
+		ext("eku-"+tag, oidEKU, critAbsent, c03_derSeq(parts...), known, func(t *encCert) {
+			if len(raw) == 0 {
+				t.hasEKU, t.ekus = true, oids
+			}
+		})
+	}
+	eku("empty", false, nil)
+	eku("one", true, [][]int{ekuOIDs[1]})
+	eku("all-known", true, ekuOIDs)
+	eku("duplicate", true, [][]int{ekuOIDs[2], ekuOIDs[2], {1, 2, 3}, {1, 2, 3}})
+	eku("arc-2^31-1", true, [][]int{{1, 2, 1<<31 - 1}, {2, 1<<31 - 81}, {0, 0}, {2, 999, 3}, {1, 39, 0}})
+	eku("arc-2^31", false, nil, []byte{0x06, 0x06, 0x2a, 0x88, 0x80, 0x80, 0x80, 0x00})
+	eku("first-subid-2^31", false, nil, []byte{0x06, 0x05, 0x88, 0x80, 0x80, 0x80, 0x00})
+	eku("subid-leading-80", false, nil, []byte{0x06, 0x03, 0x2a, 0x80, 0x01})
+	eku("subid-truncated", false, nil, []byte{0x06, 0x02, 0x2a, 0x86})
+	eku("oid-empty", false, nil, []byte{0x06, 0x00})
+	eku("oid-6-octet-subid", false, nil, []byte{0x06, 0x07, 0x2a, 0x81, 0x80, 0x80, 0x80, 0x80, 0x00})
+	eku("not-an-oid", false, nil, []byte{0x0c, 0x01, 0x41})
+	eku("known-then-junk", false, [][]int{ekuOIDs[1]}, []byte{0x05})
+	ext("eku-critical", oidEKU, critTrue, c03_derSeq(c03_derOID(ekuOIDs[3])), true, func(t *encCert) { t.hasEKU, t.ekus = true, [][]int{ekuOIDs[3]} })
+	ext("eku-not-a-sequence", oidEKU, critAbsent, c03_derOID(ekuOIDs[3]), false, nil)
+
+	// ---- subjectAltName (4.2.1.6): GeneralNames ----
+	san := func(tag string, known bool, items []encSAN, raw ...[]byte) {
+		var parts [][]byte
+		for _, s := range items {
+			b := byte(0x80 | s.tag)
+			if s.tag == 0 || s.tag == 4 || s.tag == 3 || s.tag == 5 {
+				b |= 0x20
+			}
+			parts = append(parts, tlv(b, s.data))
+		}
+		parts = append(parts, raw...)
+		ext("san-"+tag, oidSAN, critAbsent, c03_derSeq(parts...), known, func(t *encCert) {
+			if len(raw) == 0 {
+				t.hasSAN, t.sans = true, items
+			}
+		})
+	}
+	san("empty-sequence", false, nil)
+	san("each-kind", true, []encSAN{{1, []byte("a@b.example")}, {2, []byte("b.example")}, {6, []byte("https://b.example/x")}, {7, []byte{10, 0, 0, 1}},
+		{7, []byte{0x20, 1, 0x0d, 0xb8, 0, 0, 0, 0, 0, 0, 0, 0, 0, 0, 0, 1}}})
+	san("others-only", true, []encSAN{randSAN(r, 4), randSAN(r, 5), randSAN(r, 6), {3, []byte{0x13, 1, 0x41}}, {5, []byte{0x81, 1, 0x41}}})
+	for _, n := range []int{0, 1, 3, 5, 8, 15, 17, 32} {
+		san(fmt.Sprintf("ip-%d-octets", n), false, []encSAN{{7, r.Bytes(n)}})
+	}
+	san("ip-4-and-16", true, []encSAN{{7, []byte{0, 0, 0, 0}}, {7, make([]byte, 16)}, {7, []byte{255, 255, 255, 255}}})
+	san("dns-empty", true, []encSAN{{2, []byte("")}})
+	san("dns-empty-twice", true, []encSAN{{2, []byte("")}, {2, []byte("")}})
+	san("email-empty", true, []encSAN{{1, []byte("")}})
+	san("uri-empty", true, []encSAN{{6, []byte("")}})
+	san("dns-space", true, []encSAN{{2, []byte(" ")}})
+	san("dns-non-ia5", false, []encSAN{{2, []byte("b\xfccher.example")}})
+	san("email-non-ia5", false, []encSAN{{1, []byte("\x80@x.example")}})
+	san("uri-non-ia5", false, []encSAN{{6, []byte("http://x.example/\xe9")}})
+	san("dns-nul", false, []encSAN{{2, []byte("a\x00b.example")}})
+	for i, u := range []string{"http://[::1", "http://exa mple.com/", "https://a..b/", ":", "http://a.example/x y", "mailto:a, b@c", "//host", "http://*.example/",
+		"HTTP://UPPER.example/%7e", "http://a.example:80a/", "urn:x", "http://user:pw@h.example/", "http://[2001:db8::1]/", "http://-a.example/", "x://h.example./"} {
+		san(fmt.Sprintf("uri-odd-%d", i), false, []encSAN{{6, []byte(u)}})
+	}
+	san("separator-in-dns", true, []encSAN{{2, []byte("a.example, b.example")}})
+	san("separator-in-email", true, []encSAN{{1, []byte("\"a, evil.example, b\"@x.example")}})
+	san("long-tag", false, nil, []byte{0x9f, 0x21, 0x01, 0x41})
+	san("universal-tags", false, nil, []byte{0x0c, 0x01, 0x41}, []byte{0x02, 0x01, 0x05}, []byte{0x16, 0x01, 0x41})
+	san("constructed-dns", false, nil, tlv(0xa2, []byte("b.example")))
+	san("application-class", false, nil, tlv(0x42, []byte("b.example")), tlv(0xc7, []byte{1, 2, 3, 4}))
+	san("truncated-item", false, nil, []byte{0x82, 0x05, 0x61})
+	ext("san-not-a-sequence", oidSAN, critAbsent, tlv(0x82, []byte("b.example")), false, nil)
+	ext("san-critical", oidSAN, critTrue, c03_derSeq(tlv(0x82, []byte("b.example"))), true, func(t *encCert) { t.hasSAN, t.sans = true, []encSAN{{2, []byte("b.example")}} })
+	ext("san-trailing-data", oidSAN, critAbsent, append(c03_derSeq(tlv(0x82, []byte("b.example"))), 0), true, func(t *encCert) { t.hasSAN, t.sans = true, []encSAN{{2, []byte("b.example")}} })
+
+	// ---- key identifiers (4.2.1.1, 4.2.1.2) ----
+	for _, n := range []int{1, 20, 64, 200} {
+		k := r.Bytes(n)
+		ext("ski", oidSKI, critAbsent, tlv(0x04, k), true, func(t *encCert) { t.ski = k })
+		ext("aki", oidAKI, critAbsent, c03_derSeq(tlv(0x80, k)), true, func(t *encCert) { t.aki = k })
+	}
+	ext("ski-empty", oidSKI, critAbsent, tlv(0x04), false, func(t *encCert) { t.ski = []byte{} })
+	ext("ski-critical", oidSKI, critTrue, tlv(0x04, []byte{1, 2}), false, nil)
+	ext("ski-critical-false-explicit", oidSKI, critFalse, tlv(0x04, []byte{1, 2}), true, func(t *encCert) { t.ski = []byte{1, 2} })
+	ext("ski-bit-string", oidSKI, critAbsent, tlv(0x03, []byte{0, 1, 2}), false, nil)
+	ext("ski-trailing-data", oidSKI, critAbsent, append(tlv(0x04, []byte{1, 2}), 4, 1, 9), true, func(t *encCert) { t.ski = []byte{1, 2} })
+	ext("aki-empty-sequence", oidAKI, critAbsent, c03_derSeq(), true, func(t *encCert) { t.akiNoKeyID = true })
+	ext("aki-empty-keyid", oidAKI, critAbsent, c03_derSeq(tlv(0x80)), false, func(t *encCert) { t.aki = []byte{} })
+	ext("aki-issuer-serial-only", oidAKI, critAbsent, c03_derSeq(tlv(0xa1, tlv(0x82, []byte("ca.example"))), tlv(0x82, []byte{5})), true, func(t *encCert) { t.akiNoKeyID = true })
+	ext("aki-all-three", oidAKI, critAbsent, c03_derSeq(tlv(0x80, []byte{7, 7}), tlv(0xa1, tlv(0x82, []byte("ca.example"))), tlv(0x82, []byte{5})), true, func(t *encCert) { t.aki = []byte{7, 7} })
+	ext("aki-keyid-constructed", oidAKI, critAbsent, c03_derSeq(tlv(0xa0, []byte{4, 1, 7})), false, func(t *encCert) { t.akiNoKeyID = true })
+	ext("aki-keyid-second", oidAKI, critAbsent, c03_derSeq(tlv(0x82, []byte{5}), tlv(0x80, []byte{7})), false, func(t *encCert) { t.akiNoKeyID = true })
+	ext("aki-critical", oidAKI, critTrue, c03_derSeq(tlv(0x80, []byte{7})), false, nil)
+	ext("aki-not-a-sequence", oidAKI, critAbsent, tlv(0x80, []byte{7}), false, nil)
+	ext("aki-keyid-truncated", oidAKI, critAbsent, c03_derSeq([]byte{0x80, 0x05, 1}), false, nil)
+
+	// ---- the Extensions field ----
+	kuV, bcV := tlv(0x03, []byte{5, 0xa0}), c03_derSeq(bTrue)
+	exts := func(tag string, known bool, abs func(t *encCert), es ...[]byte) {
+		add("exts-"+tag, known, func(t *encCert) {
+			t.ovExtsSet, t.ovExts = true, es
+			if abs != nil {
+				abs(t)
+			}
+		})
+	}
+	setKU := func(t *encCert) { t.ku = []bool{true, false, true} }
+	exts("none", true, nil)
+	exts("duplicate-ku", false, nil, derExtC(oidKU, critTrue, kuV), derExtC(oidKU, critTrue, kuV))
+	exts("duplicate-ku-apart", false, nil, derExtC(oidKU, critTrue, kuV), derExtC(oidBC, critTrue, bcV), derExtC(oidKU, critAbsent, tlv(0x03, []byte{7, 0x80})))
+	exts("duplicate-unknown", false, nil, derExtC([]int{1, 2, 3, 4}, critAbsent, []byte{5, 0}), derExtC([]int{1, 2, 3, 4}, critAbsent, []byte{5, 0}))
+	exts("unknown-critical", true, setKU, derExtC([]int{1, 2, 3, 4}, critTrue, []byte{5, 0}), derExtC(oidKU, critTrue, kuV), derExtC([]int{2, 5, 29, 99}, critTrue, []byte{}))
+	exts("near-miss-oids", true, setKU, derExtC([]int{2, 5, 29, 15, 0}, critAbsent, []byte{0xff}), derExtC([]int{2, 5, 29}, critAbsent, []byte{0xff}),
+		derExtC([]int{2, 5, 28, 15}, critAbsent, []byte{0xff}), derExtC(oidKU, critTrue, kuV), derExtC([]int{1, 5, 29, 19}, critAbsent, []byte{0xff}))
+	exts("value-not-octet-string", false, nil, c03_derSeq(c03_derOID(oidKU), kuV))
+	exts("value-missing", false, nil, c03_derSeq(c03_derOID(oidKU)))
+	exts("critical-after-value", false, nil, c03_derSeq(c03_derOID(oidKU), tlv(0x04, kuV), bTrue))
+	exts("trailing-in-extension", true, setKU, c03_derSeq(c03_derOID(oidKU), bTrue, tlv(0x04, kuV), []byte{5, 0}))
+	exts("two-criticals", false, nil, c03_derSeq(c03_derOID(oidKU), bTrue, bTrue, tlv(0x04, kuV)))
+	exts("not-a-sequence", false, nil, tlv(0x31, c03_derOID(oidKU), tlv(0x04, kuV)))
+	exts("oid-malformed", false, nil, c03_derSeq([]byte{0x06, 0x02, 0x55, 0x80}, tlv(0x04, kuV)))
+	exts("bad-after-good", false, nil, derExtC(oidKU, critTrue, kuV), derExtC(oidBC, critTrue, c03_derSeq(bOne)))
+	add("exts-block-trailing", true, func(t *encCert) {
+		t.ovExtBlock = tlv(0xa3, c03_derSeq(derExtC(oidKU, critTrue, kuV)), []byte{5, 0})
+		setKU(t)
+	})
+	add("exts-block-not-sequence", false, func(t *encCert) { t.ovExtBlock = tlv(0xa3, derExtC(oidKU, critTrue, kuV)) })
+	add("exts-block-empty", false, func(t *encCert) { t.ovExtBlock = tlv(0xa3) })
+	add("exts-block-primitive", false, func(t *encCert) { t.ovExtBlock = tlv(0x83, c03_derSeq(derExtC(oidKU, critTrue, kuV))) })
+	add("exts-tbs-trailing", true, func(t *encCert) {
+		t.ovExtBlock = append(tlv(0xa3, c03_derSeq(derExtC(oidKU, critTrue, kuV))), 5, 0)
+		setKU(t)
+	})
+	for _, v := range []int{1, 2} {
+		v := v
+		add(fmt.Sprintf("exts-in-v%d", v), false, func(t *encCert) {
+			t.version = v
+			t.ovExtsSet, t.ovExts = true, [][]byte{derExtC(oidKU, critTrue, kuV), derExtC(oidBC, critTrue, c03_derSeq(bOne))}
+		})
+	}
+	uid := append(tlv(0x81, []byte{0, 1, 2, 3}), tlv(0x82, []byte{0, 9})...)
+	add("unique-ids-v3", true, func(t *encCert) { t.ovUIDs = uid; t.ku = []bool{true}; t.ski = []byte{4, 4} })
+	add("unique-ids-v2", true, func(t *encCert) { t.version = 2; t.ovUIDs = uid })
+	add("unique-ids-v1", false, func(t *encCert) { t.version = 1; t.ovUIDs = uid })
+	add("unique-id-subject-only", true, func(t *encCert) { t.ovUIDs = tlv(0x82, []byte{0, 9}); t.ku = []bool{true} })
+	add("unique-id-truncated", false, func(t *encCert) { t.ovUIDs = []byte{0x81, 0x05, 0} })
+	add("unique-ids-swapped", false, func(t *encCert) {
+		t.ovUIDs = append(tlv(0x82, []byte{0, 9}), tlv(0x81, []byte{0, 9})...)
+		t.ku = []bool{true}
+	})
+
+	// ---- version [0] EXPLICIT INTEGER DEFAULT v1 (4.1.2.1) ----
+	ver := func(tag string, known bool, v int, el []byte) {
+		add("version-"+tag, known, func(t *encCert) { t.version, t.ovVersion = v, el })
+	}
+	ver("v1-explicit", true, 1, tlv(0xa0, bi(0)))
+	ver("v2", true, 2, tlv(0xa0, bi(1)))
+	ver("v3", true, 3, tlv(0xa0, bi(2)))
+	ver("v4", false, 1, tlv(0xa0, bi(3)))
+	ver("negative", false, 1, tlv(0xa0, bi(-1)))
+	ver("huge", false, 1, tlv(0xa0, []byte{2, 9, 1, 0, 0, 0, 0, 0, 0, 0, 2}))
+	ver("nonminimal", false, 1, tlv(0xa0, []byte{2, 2, 0, 2}))
+	ver("trailing", false, 1, tlv(0xa0, bi(2), []byte{5, 0}))
+	ver("empty", false, 1, tlv(0xa0))
+	ver("primitive", false, 1, tlv(0x80, bi(2)))
+	ver("not-integer", false, 1, tlv(0xa0, []byte{0x0a, 1, 2}))
+
+	// ---- serialNumber (4.1.2.2) ----
+	ser := func(tag string, n *big.Int, content []byte) {
+		add("serial-"+tag, n != nil, func(t *encCert) {
+			t.ovSerial = tlv(0x02, content)
+			if n != nil {
+				t.serial = n
+			}
+		})
+	}
+	ser("zero", big.NewInt(0), []byte{0})
+	ser("128", big.NewInt(128), []byte{0, 0x80})
+	ser("127", big.NewInt(127), []byte{0x7f})
+	ser("nonminimal", nil, []byte{0, 0x7f})
+	ser("nonminimal-zero", nil, []byte{0, 0})
+	ser("negative", nil, []byte{0x80})
+	ser("negative-1", nil, []byte{0xff})
+	ser("negative-nonminimal", nil, []byte{0xff, 0x80})
+	ser("negative-long", nil, append([]byte{0xff, 0x7f}, r.Bytes(18)...))
+	ser("empty", nil, []byte{})
+	for _, n := range []int{19, 20, 21, 32, 64} {
+		b := r.Bytes(n)
+		b[0] = 0x40 | b[0]&0x7f
+		ser(fmt.Sprintf("%d-octets", n), new(big.Int).SetBytes(b), b)
+		b2 := append([]byte{0}, r.Bytes(n)...)
+		b2[1] |= 0x80
+		ser(fmt.Sprintf("%d-octets-signpad", n+1), new(big.Int).SetBytes(b2), b2)
+	}
+	add("serial-enumerated", false, func(t *encCert) { t.ovSerial = tlv(0x0a, []byte{5}) })
+
+	// ---- validity (4.1.2.5): UTCTime through 2049, GeneralizedTime from 2050; the library accepts more ----
+	val := func(tag string, nb, na []byte, tnb, tna *time.Time, inspect bool) {
+		known := tnb != nil && inspect
+		vs = append(vs, variant{"validity-" + tag, known, inspect, func(t *encCert) {
+			t.ovValidity = c03_derSeq(nb, na)
+			if tnb != nil {
+				t.nb, t.na = *tnb, *tna
+			}
+		}})
+	}
+	tm := func(y, mo, d, h, mi, s int) *time.Time {
+		x := time.Date(y, time.Month(mo), d, h, mi, s, 0, time.UTC)
+		return &x
+	}
+	okNA := utcT("250101000000Z")
+	tNA := tm(2025, 1, 1, 0, 0, 0)
+	val("utc-utc", utcT("240229235959Z"), okNA, tm(2024, 2, 29, 23, 59, 59), tNA, true)
+	val("gen-for-2024", genT("20240229235959Z"), genT("20250101000000Z"), tm(2024, 2, 29, 23, 59, 59), tNA, true)
+	val("utc-gen", utcT("491231235959Z"), genT("20500101000000Z"), tm(2049, 12, 31, 23, 59, 59), tm(2050, 1, 1, 0, 0, 0), true)
+	val("utc-50-is-1950", utcT("500101000000Z"), utcT("491231235959Z"), tm(1950, 1, 1, 0, 0, 0), tm(2049, 12, 31, 23, 59, 59), true)
+	val("utc-68-69", utcT("681231235959Z"), utcT("690101000000Z"), tm(1968, 12, 31, 23, 59, 59), tm(1969, 1, 1, 0, 0, 0), true)
+	val("gen-1949", genT("19491231235959Z"), okNA, tm(1949, 12, 31, 23, 59, 59), tNA, true)
+	val("gen-year-1", genT("00010101000000Z"), genT("99991231235959Z"), tm(1, 1, 1, 0, 0, 0), tm(9999, 12, 31, 23, 59, 59), true)
+	val("gen-year-0", genT("00000229120000Z"), okNA, tm(0, 2, 29, 12, 0, 0), tNA, true)
+	val("utc-no-seconds", utcT("2401011234Z"), okNA, tm(2024, 1, 1, 12, 34, 0), tNA, true)
+	val("utc-offset", utcT("240101120000+0100"), okNA, nil, nil, false)
+	val("utc-offset-day-change", utcT("240101003000+0100"), utcT("241231233000-0100"), nil, nil, false)
+	val("utc-offset-no-seconds", utcT("2401011200-0830"), okNA, nil, nil, false)
+	val("gen-offset", genT("20240101120000+0530"), genT("20250101000000-1200"), nil, nil, false)
+	val("utc-offset-50", utcT("500101003000+0100"), okNA, nil, nil, false)
+	for i, s := range []string{"240230000000Z", "230229000000Z", "240101240000Z", "240101006000Z", "240101000060Z", "241301000000Z", "240100000000Z",
+		"240132000000Z", "24010100Z", "240101000000", "240101000000+0000", "240101000000-0000", "240101000000+2400", "240101000000+2430",
+		"240101000000+2500", "240101000000+0060", "240101000000+01", "240101000000z", "2401010000", "24010100000Z", "240101000000.5Z",
+		"2401010000005Z", " 40101000000Z", "24-101000000Z", "", "Z", "240101000000Z ", "000229000000Z", "000101000000+2400"} {
+		val(fmt.Sprintf("utc-odd-%d", i), utcT(s), okNA, nil, nil, false)
+	}
+	for i, s := range []string{"20240230000000Z", "21000229000000Z", "20000229000000Z", "20240101240000Z", "20240101000060Z", "202401010000Z",
+		"2024010100Z", "20240101000000", "20240101000000.5Z", "20240101000000,5Z", "20240101000000+0000", "20240101000000+2400", "20240101000000-2430",
+		"20240101000000+0060", "240101000000Z", "020240101000000Z", "", "19000229000000Z", "00000101000000+2400", "99991231235959-2400"} {
+		val(fmt.Sprintf("gen-odd-%d", i), okNA, genT(s), nil, nil, false)
+	}
+	val("ia5-time", tlv(0x16, []byte("240101000000Z")), okNA, nil, nil, false)
+	val("second-missing", utcT("240101000000Z"), nil, nil, nil, false)
+	add("validity-three-times", true, func(t *encCert) { t.ovValidity = c03_derSeq(derTime(t.nb), derTime(t.na), derTime(t.nb)) })
+	add("validity-empty", false, func(t *encCert) { t.ovValidity = c03_derSeq() })
+
+	// ---- the certificate frame ----
+	add("outer-algorithm-differs", false, func(t *encCert) {
+		t.ovOuterSig = c03_derSeq(c03_derOID([]int{1, 2, 840, 113549, 1, 1, 11}), []byte{5, 0})
+	})
+	add("trailing-data", false, func(t *encCert) { t.ovTrailer = []byte{0} })
+	add("trailing-certificate", false, func(t *encCert) { t.ovTrailer = []byte{0x30, 0} })
+
+	for _, v := range vs {
+		t := g.baseCert()
+		v.f(t)
+		g.emitDer(v.tag, t, t.rawDER(r), v.known, v.inspect)
+	}
+
+	// ---- the octets written by the Coq writer for Proofs/CertDer.v's example_der (Example
+	// example_der_octets): the library and the tool must read them as the theorems say ----
+	{
+		der, _ := hex.DecodeString(coqEncodedExample)
+		t := g.baseCert()
+		t.serial = big.NewInt(51201)
+		t.nb, t.na = time.Date(2049, 12, 31, 23, 59, 59, 0, time.UTC), time.Date(2050, 1, 1, 0, 0, 0, 0, time.UTC)
+		t.ku = []bool{true, false, false, false, false, true, true}
+		t.hasBasic, t.isCA, t.hasPathLen, t.pathLen = true, true, true, 0
+		t.hasEKU, t.ekus = true, [][]int{{1, 2, 3, 4}, ekuOIDs[1], {2, 999, 1}}
+		t.hasSAN = true
+		t.sans = []encSAN{{7, []byte{192, 0, 2, 1}}, {2, []byte("a.example")}, {0, []byte{6, 1, 42, 160, 1, 5}}, {1, []byte("x@a.example")},
+			{6, []byte("https://a.example/p?q=1#f")}, {7, []byte{0x20, 1, 0x0d, 0xb8, 0, 0, 0, 0, 0, 1, 0, 0, 0, 0, 0, 1}}}
+		t.ski, t.aki = []byte{3, 0xde, 0x50, 0x35}, []byte{0x0a, 0xbc}
+		g.emitDer("coq-encoded", t, der, true, true)
+	}
+
+	// ---- random: mutated values of each modelled part inside an otherwise clean certificate ----
+	n := 500
+	if g.c.Thorough() {
+		n = 20000
+	}
+	for i := 0; i < n; i++ {
+		src := randCert(r, g.kp, false)
+		t := g.baseCert()
+		kind := r.Intn(9)
+		mut := func(b []byte) []byte {
+			for k := 1 + r.Intn(2); k > 0; k-- {
+				b = mutateBytes(r, b)
+			}
+			return b
+		}
+		tag := ""
+		one := func(oid []int, crit int, v []byte) { t.ovExtsSet, t.ovExts = true, [][]byte{derExtC(oid, crit, v)} }
+		switch kind {
+		case 0:
+			bits := src.ku
+			if bits == nil {
+				bits = bitsOfMask(1 + r.Intn(511))
+			}
+			tag = "ku"
+			one(oidKU, r.Intn(3), mut(c03_derBits(bits)))
+		case 1:
+			var parts [][]byte
+			if r.Intn(3) != 0 {
+				parts = append(parts, [][]byte{bTrue, bFalse, bOne}[r.Intn(3)])
+			}
+			if r.Intn(2) == 0 {
+				parts = append(parts, bi(int64(r.Intn(300))-20))
+			}
+			tag = "bc"
+			one(oidBC, r.Intn(3), mut(c03_derSeq(parts...)))
+		case 2:
+			var parts [][]byte
+			for _, o := range src.ekus {
+				parts = append(parts, c03_derOID(o))
+			}
+			parts = append(parts, c03_derOID(randOID(r)))
+			tag = "eku"
+			one(oidEKU, r.Intn(3), mut(c03_derSeq(parts...)))
+		case 3:
+			var parts [][]byte
+			ss := append([]encSAN{randSAN(r, r.Intn(7))}, src.sans...)
+			for _, s := range ss {
+				b := byte(0x80 | s.tag)
+				if s.tag == 0 || s.tag == 4 {
+					b |= 0x20
+				}
+				parts = append(parts, tlv(b, s.data))
+			}
+			v := mut(c03_derSeq(parts...))
+			tag = "san"
+			one(oidSAN, r.Intn(3), v)
+			t.sanValues = [][]byte{v}
+		case 4:
+			tag = "ski"
+			one(oidSKI, r.Intn(5)/4, mut(tlv(0x04, r.Bytes(1+r.Intn(24)))))
+		case 5:
+			tag = "aki"
+			one(oidAKI, r.Intn(5)/4, mut(c03_derSeq(tlv(0x80, r.Bytes(1+r.Intn(24))), tlv(0x82, []byte{5}))))
+		case 6:
+			tag = "serial"
+			t.ovSerial = mut(c03_derInt(src.serial))
+		case 7:
+			tag = "validity"
+			t.ovValidity = mut(c03_derSeq(derTime(src.nb), derTime(src.na)))
+		default:
+			tag = "extension"
+			e := mut(derExtC([][]int{oidKU, oidBC, oidSKI, {1, 2, 3}}[r.Intn(4)], r.Intn(4), [][]byte{kuV, bcV, tlv(0x04, []byte{1}), {5, 0}}[r.Intn(4)]))
+			t.ovExtsSet, t.ovExts = true, [][]byte{derExtC(oidEKU, critAbsent, c03_derSeq(c03_derOID(ekuOIDs[1]))), e}
+		}
+		// a zone offset in a time is kept by the library and the tool prints the date in that zone:
+		// outside RFC 5280's profile, only the instant is compared (op der)
+		g.emitDer("mutated-"+tag, t, t.rawDER(r), false, kind != 7)
+	}
 }
